@@ -11,33 +11,11 @@ COMMON_NOTE = ("Trusted: Lean 4.33 kernel (axioms propext, Classical.choice, Quo
                "the hand-written model (tied to the Go code only by the correspondence runs of harness/cmd/drive on generated cases), "
                "the translator harness/cmd/extract for regenerated constants/tables, Go runtime/stdlib. ")
 
-CLAIMED = {
-    "C01": dict(
-        text="Theorems over Model.Reasm for every configuration, clock and operation list of any length: conservation (delivered ++ buffered is a permutation of the pushed non-EOE messages at every point), exactly-once after Close, single-sequence non-empty groups, groups are subsequences of the push order, records for a buffered sequence join its event. The model is tied to reassembler.go by per-call comparison of callback traces on generated histories (late arrivals, duplicates after eviction, roll-over, EOE, nil pushes, raw pushes, all maxInFlight) and the property monitor runs on the real code's trace.",
-        note=COMMON_NOTE + "sort.Sort on <=12 elements is insertion sort (out-of-window histories run only with maxInFlight<=11); pointer identity of messages is modelled by ids.",
-        tech="Lean 4 invariant proofs (List.Perm conservation, Sublist order) + differential correspondence of callback traces",
-        ref="4 / C01"),
-    "C02": dict(
-        text="Theorems: inside one 2^24 window the roll-over aware Less is the strict total order of window distance (omega); the buffer is sorted in every reachable in-window state; at every call the delivered events followed by the still-buffered ones are sorted, so an event delivered later with a lower sequence was first pushed later. maxSortRange is regenerated from the source and tied by C02_const. Correspondence and monitor on in-window histories incl. full-width windows whose ends are exactly maxSortRange apart.",
-        note=COMMON_NOTE + "The window may differ at every push but the history must satisfy the in-window hypothesis (WinRun).",
-        tech="Lean 4 sortedness invariant (Pairwise) under a window hypothesis + differential correspondence",
-        ref="4 / C02"),
-    "C03": dict(
-        text="Theorems: per call the reported count is the accounting of exactly that call's deliveries, reported once after its groups and only when positive; over a run the counts sum to the accounting of all deliveries; the model's accounting equals an independent window-position specification; closed form (total = window distance covered by in-order deliveries - their number); late/duplicate deliveries contribute nothing. Checked against the real code after every call.",
-        note=COMMON_NOTE + "Model is of the code after the fix commit (hasLast flag, roll-over aware guard).",
-        tech="Lean 4 refinement of the loss accounting to a window-position spec + differential correspondence after every call",
-        ref="4 / C03"),
-    "C10": dict(
-        text="Theorems: after any push/Maintain at most maxInFlight events are buffered (maxInFlight>=0); the head is never evictable (complete, expired or over bound); every event evicted outside Close was evictable when it was the head (complete, or size>maxInFlight, or timeout elapsed); completion happens exactly for a terminating record or an EOE of a buffered sequence.",
-        note=COMMON_NOTE + "Correspondence runs with timeout +1h so the first two causes are decided exactly from the trace.",
-        tech="Lean 4 induction over CleanUp's recursion + differential correspondence with reconstructed buffer",
-        ref="4 / C10"),
-    "C19": dict(
-        text="Theorems: after a push/Maintain the head's timeout has not elapsed (an expired head goes); an incomplete event evicted within the bound had its timeout elapsed; the deadline is fixed by the first record; Close flushes every event once in buffer order with loss accounting and leaves nothing; after Close, Maintain/Close error and deliver nothing; nil Stream rejected. Real-time histories with sleeps are compared under a clock bracket.",
-        note=COMMON_NOTE + "Partial: the several time.Now() reads inside one call are collapsed to one instant; timing-ambiguous real-time traces are discarded (counted in evidence), never alarmed on.",
-        tech="Lean 4 step lemmas over the eviction predicate + bracketed real-time differential runs",
-        ref="4 / C19"),
-}
+# one file per claimed property: tools/claims/Cxx.json with keys text, note, tech, ref
+CLAIMED = {}
+for _f in sorted(os.listdir(os.path.join(VERIF, "tools", "claims"))):
+    if _f.endswith(".json"):
+        CLAIMED[_f[:-5]] = json.load(open(os.path.join(VERIF, "tools", "claims", _f)))
 
 PENDING_REASON = "machinery for this property is not built yet in this revision (planned in DESIGN.md section 4); not claimed until its check exists"
 
